@@ -186,6 +186,13 @@ def roundtrip_case(rec, rng, entries, via):
         except Exception as exc:
             rec.violation("cache-roundtrip", case, {"where": "save_cache", "exception": repr(exc)})
             return
+        if not os.path.exists(path):
+            if entries:
+                rec.violation("cache-roundtrip", case, {"why": "save_cache() wrote no cache file",
+                                                        "n_entries": len(entries)})
+            else:
+                rec.count("observed.empty_cache_not_written")
+            return
         if sorted(os.listdir(root)) != ["cache.json"]:
             rec.violation("cache-debris", case, {"left": os.listdir(root)})
         if via == "load":
@@ -234,9 +241,13 @@ def roundtrip_case(rec, rng, entries, via):
             rec.count("roundtrip.resave_histories")
         # second generation: save what was loaded, must be a fixed point
         fs3 = new_fileset()
-        fs3.info_cache.update(cache)
+        fill(fs3, [{"path": p_, "t0": i_.times[0], "t1": i_.times[1], "attr": i_.attr}
+                   for p_, i_ in cache.items()])
         fs3.save_cache(path + "2")
-        if open(path).read() != open(path + "2").read():
+        if not os.path.exists(path + "2") or not os.path.exists(path):
+            if cache:
+                rec.violation("cache-roundtrip", case, {"why": "save_cache() of a loaded cache wrote no file"})
+        elif open(path).read() != open(path + "2").read():
             d1 = json.load(open(path))
             d2 = json.load(open(path + "2"))
             if d1 != d2:
@@ -473,7 +484,10 @@ def fault_cases(rec, rng):
             fs0 = new_fileset()
             fill(fs0, old_entries)
             fs0.save_cache(cache)
-            old_bytes = open(cache, "rb").read()
+            if os.path.exists(cache):
+                old_bytes = open(cache, "rb").read()
+            elif old_entries:
+                rec.violation("cache-roundtrip", case0, {"why": "save_cache() wrote no file"})
         fs = new_fileset()
         fill(fs, new_entries)
         return root, cache, old_bytes, fs
